@@ -304,7 +304,11 @@ pub(crate) fn add_set_remove<W, R, T>(
             rt.can_allocate((set.len - 1)* size_of::<usize>())?;
             let mut new_dict = HashMap::from_iter(set.inner.iter().filter(|(k, _)| k != &&hash_key).map(|(k, b)| (*k, b.clone())));
             let old_bucket = &set.inner[&hash_key];
-            new_dict.insert(hash_key, old_bucket.iter().take(idx).chain(old_bucket.iter().skip(idx + 1)).cloned().collect());
+            let new_bucket: Vec<_> = old_bucket.iter().take(idx).chain(old_bucket.iter().skip(idx + 1)).cloned().collect();
+            // an empty bucket would make the hash differ from that of an equal collection
+            if !new_bucket.is_empty() {
+                new_dict.insert(hash_key, new_bucket);
+            }
             Ok(manage_native!(
                 XSet::new(set.hash_func.clone(), set.eq_func.clone(), new_dict, set.len-1),
                 rt
@@ -335,7 +339,11 @@ pub(crate) fn add_set_discard<W, R, T>(
             rt.can_allocate((set.len - 1)* size_of::<usize>())?;
             let mut new_dict = HashMap::from_iter(set.inner.iter().filter(|(k, _)| k != &&hash_key).map(|(k, b)| (*k, b.clone())));
             let old_bucket = &set.inner[&hash_key];
-            new_dict.insert(hash_key, old_bucket.iter().take(idx).chain(old_bucket.iter().skip(idx + 1)).cloned().collect());
+            let new_bucket: Vec<_> = old_bucket.iter().take(idx).chain(old_bucket.iter().skip(idx + 1)).cloned().collect();
+            // an empty bucket would make the hash differ from that of an equal collection
+            if !new_bucket.is_empty() {
+                new_dict.insert(hash_key, new_bucket);
+            }
             Ok(manage_native!(
                 XSet::new(set.hash_func.clone(), set.eq_func.clone(), new_dict, set.len-1),
                 rt
